@@ -9,8 +9,23 @@ pub use core::*;
 #[cfg(feature = "compiled_data")]
 use crate::tzdb::FsTzdbProvider;
 #[cfg(feature = "compiled_data")]
-use std::sync::{LazyLock, Mutex};
+use std::sync::{LazyLock, Mutex, MutexGuard, PoisonError};
+
+/// The process-wide time zone provider behind the convenience API.
+///
+/// `lock` recovers the provider from a poisoned mutex: a call that panicked while it held
+/// the lock must not make every later call fail.
+#[cfg(feature = "compiled_data")]
+pub struct SharedTzProvider(LazyLock<Mutex<FsTzdbProvider>>);
 
 #[cfg(feature = "compiled_data")]
-pub static TZ_PROVIDER: LazyLock<Mutex<FsTzdbProvider>> =
-    LazyLock::new(|| Mutex::new(FsTzdbProvider::default()));
+impl SharedTzProvider {
+    #[allow(clippy::result_unit_err)]
+    pub fn lock(&self) -> Result<MutexGuard<'_, FsTzdbProvider>, ()> {
+        Ok(self.0.lock().unwrap_or_else(PoisonError::into_inner))
+    }
+}
+
+#[cfg(feature = "compiled_data")]
+pub static TZ_PROVIDER: SharedTzProvider =
+    SharedTzProvider(LazyLock::new(|| Mutex::new(FsTzdbProvider::default())));
